@@ -241,6 +241,8 @@ class RealSession:
                 if mids:
                     m = mids[int(t[2]) % len(mids)]
                     c._last_mid = 65535 if m <= 1 else m - 1
+            elif t[1] == "edge":
+                c._last_mid = 65534 - int(t[2])
             else:
                 c._last_mid = (max([c._last_mid] + list(c._out_messages.keys())) // 1000 + 1) * 1000 % 65000
         else:
@@ -436,6 +438,16 @@ def _next_op(rng, sh):
         t_ = rng.choice(TOPICS)
         sh.pending = [f"publish {q} {hx(t_)} {hx(bytes([rng.randrange(256)]))} 0", "setmid fresh 0"]
         return f"setmid live {rng.randrange(8)}"
+    if rng.random() < 0.02:
+        # the wrap-around with a message outstanding at the very end of the id space: a QoS 1/2 message gets id 65535 and
+        # stays unacknowledged; one lap later a subscribe / unsubscribe / publish comes round to it (every id handed out is
+        # in 1..65535, 65535 is followed by 1, a publish landing on the live id is refused)
+        q = rng.choice([1, 2])
+        nxt = rng.choice([f"subscribe {hx(b'a/#')} 1", f"unsubscribe {hx(b't')}", f"publish {q} {hx(b't')} {hx(b'w')} 0",
+                          f"publish 0 {hx(b't')} {hx(b'w')} 0"])
+        k = rng.choice([0, 0, 1])
+        sh.pending = [f"publish {q} {hx(b't')} {hx(b'e')} 0"] * (k + 1) + [f"setmid edge {rng.choice([0, 0, 1])}", nxt, nxt, "setmid fresh 0"]
+        return f"setmid edge {k}"
     if sh.out and rng.random() < 0.03:
         # a transport failure / stall exactly when the client answers an acknowledgement (PUBREL after PUBREC ...),
         # then the connection is re-established
